@@ -6,7 +6,7 @@ operator+= / mergeWithObject) over OccaModel/Json.lean, of the repaired code (fi
 A path string is split into keys like the C++ loops do (`splitPath`); C25_path_string ties "a/b/c" to the
 key list.  The nested-dictionary model of the property is stated through its observations: the const read
 `readK` (= const operator[] / getPathValue, `none` = the undefined value), `hasK` (= has) and `size`.
-  writes create missing intermediate objects            C25_read_after_write, C25_write_creates_intermediates,
+  writes create missing intermediate objects            C25_read_after_write, C25_read_below_write, C25_write_creates_intermediates,
                                                          C25_write_frame, C25_write_through_leaf_fails
   reads of missing paths are undefined, create nothing  C25_read_missing_undefined, C25_has_of_defined (reads are
                                                          pure functions of the value: nothing can be created)
@@ -35,6 +35,11 @@ theorem C25_read_after_write (ks : List Bytes) (v j j' : Json) (h : write ks v j
   read_after_write ks v j j' h
 
 example : write [[97], [98]] (.str [120]) .none = .ok (.obj [([97], .obj [([98], .str [120])])]) := by rfl
+
+/-- below the written path one reads inside the written value -/
+theorem C25_read_below_write (ks r : List Bytes) (v j j' : Json) (h : write ks v j = .ok j') :
+    readK (ks ++ r) j' = readK r v := by
+  rw [readK_append, read_after_write ks v j j' h]
 
 /-- writes create the missing intermediate objects: every proper prefix of the path is an object -/
 theorem C25_write_creates_intermediates (ks qs : List Bytes) (v j j' : Json) (h : write ks v j = .ok j')
